@@ -39,7 +39,7 @@ def vectors(kind):
         # push/pop with library functions is a recorded known finding (C13-pushpop-library-exit): not in the explored vectors;
         # programs with equal function names in several modules are not explored under remove_labels (C05-prefix-names)
         return [dict(BASE), dict(BASE, inline_functions=False), dict(BASE, inline_functions=False, compact=True),
-                dict(BASE, inline_functions=False, tail_call_optimization=True)]
+                dict(BASE, inline_functions=False, tail_call_optimization=True), dict(BASE, tail_call_optimization=True)]
     if kind == "modules-rl":
         return [dict(BASE), dict(BASE, remove_labels=True), dict(BASE, inline_functions=False), dict(BASE, inline_functions=False, compact=True, remove_labels=True)]
     if kind == "labels":
